@@ -86,7 +86,7 @@ def height(shape, i):
     return max(depth_of(shape, d) for d in ds) - depth_of(shape, i)
 
 
-def _warm(tree, nodes):
+def _warm(tree, nodes, model=None):
     for nd in nodes:
         nd.depth(), nd.calc_depth(), nd.calc_height(), nd.get_top(), nd.get_parent_list(), nd.get_index()
         nd.count_descendants(), nd.is_top(), nd.is_leaf(), nd.get_siblings(), nd.first_sibling(), nd.last_sibling()
